@@ -11,8 +11,9 @@ from .tok import CNAME, ANY
 ID = "C10"
 DRIVER = "local"
 COQ_TARGETS = ["Properties/C10.vo"]
-THEOREMS = ["C10_local_chain_ok", "C10_authoritative_only_chain_ok", "C10_referral_only_direct",
-            "C10_loops_end", "C10_stack_never_repeats", "C10_fuel_suffices"]
+THEOREMS = ["C10_local_chain_ok", "C10_authoritative_only_chain_ok", "C10_referral_only_direct_local",
+            "C10_zones_typed_answers_ok", "C10_recursion_shape", "C10_stack_never_repeats", "C10_fuel_suffices",
+            "C10_loops_end_local", "C10_loops_end_top_local"]
 RULE = ("case = zones + cache contents + questions, a third of them alias graphs (chains of 0..40 links spread over an "
         "authoritative zone, a non-authoritative zone and the cache; ending in data, nothing, a cycle or a self-loop); "
         "non-trivial = distinct case line in which at least one question of a type other than CNAME/ANY is answered with "
@@ -31,7 +32,9 @@ ASSUMPTIONS = [
 TRUSTED = ["oracle restricted (soundness): replies that are direct referrals (local result Delegation, F12 of C09) are not "
            "checked against chain_ok"]
 
-generate = g.generate
+
+def generate(rng, tier):
+    return g.generate(rng, tier, ID)
 
 
 def oracle(case, impl, model):
